@@ -17,7 +17,7 @@ def sh(cmd, cwd, timeout=3600):
     return p.returncode, p.stdout
 
 
-def confirm(wt, pid, x):
+def confirm(wt, pid, x, tag=""):
     src = os.path.join(wt, "_seeded", x)
     ran = []
     patch = os.path.join(src, "patch.diff")
@@ -59,7 +59,7 @@ def confirm(wt, pid, x):
         if os.path.exists(p):
             os.remove(p)
     ok = res.get("builds") and res.get("suite_passes") and (not has_demo or (res.get("demo_passes_unchanged") and res.get("demo_fails_with_change")))
-    dst = os.path.join(SEEDED, f"{pid}-{x}")
+    dst = os.path.join(SEEDED, f"{pid}-{tag}{x}")
     if ok:
         os.makedirs(dst, exist_ok=True)
         shutil.copy(patch, os.path.join(dst, "patch.diff"))
@@ -72,9 +72,9 @@ def confirm(wt, pid, x):
                 meta = json.load(open(mp))
             except Exception:
                 meta = {"raw": open(mp).read()}
-        meta.update({"id": f"{pid}-{x}", "property": pid, "confirmed": res, "what_i_ran": ran, "origin": "independent sub-agent given only the property text and a scratch worktree"})
+        meta.update({"id": f"{pid}-{tag}{x}", "property": pid, "confirmed": res, "what_i_ran": ran, "origin": "independent sub-agent given only the property text and a scratch worktree"})
         json.dump(meta, open(os.path.join(dst, "meta.json"), "w"), indent=1)
-    print(("CONFIRMED " if ok else "REJECTED ") + f"{pid}-{x} {res}")
+    print(("CONFIRMED " if ok else "REJECTED ") + f"{pid}-{tag}{x} {res}")
     return ok
 
 
@@ -105,7 +105,7 @@ def detect(sid, props, tier):
 
 if __name__ == "__main__":
     if sys.argv[1] == "confirm":
-        confirm(sys.argv[2], sys.argv[3], sys.argv[4])
+        confirm(sys.argv[2], sys.argv[3], sys.argv[4], sys.argv[5] if len(sys.argv) > 5 else "")
     else:
         tier = "quick"
         args = sys.argv[3:]
